@@ -10,6 +10,7 @@ from dsim.sim import ALL_SLOTS, Sim
 from dsim.world import substream
 
 PROPERTY = "C12"
+DECOY = 0.25  # share of runs that edit a second document first and keep it open (runner.with_decoy)
 RULE = (
     "one run = a seeded history over one or two tables of merge(rect | list of rects; 1xN, Nx1, NxM, touching, at edges; kept disjoint), "
     "writes outside placeholders, add/delete rows and columns before, inside and after rectangles, add_table, saves and restarts (new documents "
